@@ -300,6 +300,10 @@ def load_known():
     return json.load(open(KNOWN)).get("findings", [])
 
 
+# evidence/ and replay/ describe /repo only: a run against another tree (--root) writes under .cache/alt instead
+OUT_DIR = None
+
+
 def finish(rep, explanation, trusted_base, level="other", replay_only=None):
     """print result lines, write evidence, return exit code"""
     known = [k for k in load_known() if k.get("property") == rep.prop]
@@ -322,7 +326,7 @@ def finish(rep, explanation, trusted_base, level="other", replay_only=None):
         seen_known.add(v["key"])
         out.append("KNOWN-FINDING: property=%s %s — %s [%s]" % (
             rep.prop, v["key"], open_keys[v["key"]].get("what", v["detail"]), v.get("site", "")))
-    rdir = os.path.join(VERIF, "replay", rep.prop)
+    rdir = os.path.join(OUT_DIR or VERIF, "replay", rep.prop)
     os.makedirs(rdir, exist_ok=True)
     if replay_only is None:
         for fn in os.listdir(rdir):
@@ -337,7 +341,7 @@ def finish(rep, explanation, trusted_base, level="other", replay_only=None):
             continue
         seen.add(v["key"])
         n += 1
-        path = os.path.join(VERIF, "replay", rep.prop, "%02d.json" % n)
+        path = os.path.join(rdir, "%02d.json" % n)
         with open(path, "w") as fh:
             json.dump({"property": rep.prop, "key": v["key"], "rule": v["rule"], "instance": v["instance"],
                        "site": v["site"], "detail": v["detail"]}, fh, indent=1)
@@ -384,9 +388,10 @@ def finish(rep, explanation, trusted_base, level="other", replay_only=None):
     }
     if rep.mutants:
         ev["coverage"]["mutants"] = rep.mutants
-    os.makedirs(os.path.join(VERIF, "evidence"), exist_ok=True)
+    edir = os.path.join(OUT_DIR or VERIF, "evidence")
+    os.makedirs(edir, exist_ok=True)
     if replay_only is None:
-        with open(os.path.join(VERIF, "evidence", rep.prop + ".json"), "w") as fh:
+        with open(os.path.join(edir, rep.prop + ".json"), "w") as fh:
             json.dump(ev, fh, indent=1, sort_keys=True)
     for line in out:
         print(line)
